@@ -41,7 +41,9 @@ import (
 	"github.com/nuts-foundation/go-did/vc"
 	"github.com/nuts-foundation/nuts-node/auth"
 	"github.com/nuts-foundation/nuts-node/auth/oauth"
+	"github.com/nuts-foundation/nuts-node/auth/contract"
 	"github.com/nuts-foundation/nuts-node/auth/services"
+	"github.com/nuts-foundation/nuts-node/auth/services/dummy"
 	"github.com/nuts-foundation/nuts-node/core"
 	httpEngine "github.com/nuts-foundation/nuts-node/http"
 	"github.com/nuts-foundation/nuts-node/http/client"
@@ -98,6 +100,7 @@ type xOp struct {
 	Prior   string  `json:"prior,omitempty"`
 	// cflag (round 3): core.NewClientConfigForCommand on a command whose flag set is Names (ALL flags, in VisitAll order:
 	// core.ClientConfigFlags plus the command's own), with Args set on the command line and NUTS_TOKEN = EnvToken
+	Acts     []string `json:"acts,omitempty"` // dummy: history of calls on one dummy.Dummy: start | status:<n> (n-th started session) | verify
 	Names    []string `json:"names,omitempty"`
 	EnvToken *string  `json:"envtoken,omitempty"`
 	// cap: the server answering last sends a body of this many bytes (Content-Length, or chunked)
@@ -559,6 +562,49 @@ func xExec(t *testing.T, op xOp, sock **xSock) (line string) {
 		return xSrc(op, sock)
 	case "cflag":
 		return xClientFlags(op)
+	case "dummy":
+		d := dummy.Dummy{InStrictMode: op.Strict, Sessions: map[string]string{}, Status: map[string]string{}}
+		var ids, outs []string
+		for _, a := range op.Acts {
+			var err error
+			out := ""
+			switch {
+			case a == "start":
+				sp, e := d.StartSigningSession(contract.Contract{RawContractText: "NL:BehandelaarLogin:v3 text"}, nil)
+				err = e
+				if e == nil {
+					ids = append(ids, sp.SessionID())
+					out = "started"
+				}
+			case a == "verify":
+				_, err = d.VerifyVP(vc.VerifiablePresentation{}, nil)
+				out = "verifier-reached"
+			default:
+				n, _ := strconv.Atoi(strings.TrimPrefix(a, "status:"))
+				id := "no-such-session"
+				if n < len(ids) {
+					id = ids[n]
+				}
+				res, e := d.SigningSessionStatus(context.Background(), id)
+				err = e
+				if e == nil {
+					out = res.Status()
+				}
+			}
+			switch {
+			case err == nil:
+			case strings.Contains(err.Error(), "not allowed in strict mode"):
+				out = "not-enabled"
+			case err == services.ErrSessionNotFound:
+				out = "not-found"
+			case a == "verify":
+				out = "verifier-reached"
+			default:
+				out = "error:" + err.Error()
+			}
+			outs = append(outs, out)
+		}
+		return "dummy " + strings.Join(outs, ",")
 	case "load", "sys":
 		dir, err := os.MkdirTemp(os.Getenv("VERIF_OUT"), "node")
 		if err != nil {
@@ -1213,6 +1259,28 @@ func xGenerate(seed int64, thorough bool) []xOp {
 		}
 	}
 	ops = append(ops, xGenClientFlags(r, thorough)...)
+	// 10. (round 3) histories of calls on the dummy means itself, strict and lenient
+	nh := 30
+	if thorough {
+		nh = 600
+	}
+	for i := 0; i < nh+2; i++ {
+		acts := []string{"start", "status:0", "status:0", "status:0", "status:0", "verify"}
+		if i >= 2 {
+			acts = nil
+			for k := 1 + r.Intn(12); k > 0; k-- {
+				switch r.Intn(5) {
+				case 0:
+					acts = append(acts, "verify")
+				case 1, 2:
+					acts = append(acts, "start")
+				default:
+					acts = append(acts, "status:"+strconv.Itoa(r.Intn(4)))
+				}
+			}
+		}
+		ops = append(ops, xOp{Op: "dummy", Strict: i%2 == 0, Acts: acts, Tag: "dummy-history"})
+	}
 	return ops
 }
 
